@@ -12,6 +12,8 @@ mod report;
 mod search;
 mod space;
 mod static_checks;
+mod ucichecks;
+mod ucidrv;
 
 use report::Ctx;
 
@@ -24,6 +26,10 @@ fn main() {
     let args: Vec<String> = std::env::args().collect();
     if args.len() == 4 && args[1] == "c19-child" {
         search::c19_child(&args[2], &args[3]);
+        return;
+    }
+    if args.len() == 3 && args[1] == "parsechk" {
+        ucichecks::parsechk(args[2] == "quick");
         return;
     }
     if args.len() < 3 || args[1] != "check" {
@@ -59,9 +65,12 @@ fn main() {
         "C04" => search::run_c04(&ctx),
         "C05" => poschecks::run_c05(&ctx),
         "C06" => search::run_c06(&ctx),
+        "C14" => ucichecks::run_c14(&ctx),
         "C15" => c15::run_c15(&ctx),
         "C17" => search::run_c17(&ctx),
+        "C18" => ucichecks::run_c18(&ctx),
         "C19" => search::run_c19(&ctx),
+        "C07" => ucichecks::run_c07(&ctx),
         "C08" => poschecks::run_c08(&ctx),
         "C09" => static_checks::run_c09(&ctx),
         "C10" => poschecks::run_c10(&ctx),
